@@ -4,7 +4,8 @@ blockstore.go, blockfinalize.go).  Executable, core Lean only.  Shared by C26–
 
 Blocks are `(id, parent, height, diff)`: `id` stands for the block hash, `parent` for the
 parent hash, `diff` for `difficulty.CalcWork(header.Difficulty)` (a non-negative integer).
-The functions mirror the Go code one to one:
+The functions mirror the Go code one to one (process.go as of fix a2015e1: FindFork before the
+side-chain test, a missing fork point refuses the block):
 
   processBlock        ProcessBlock + maybeAddBestChain
   maybeAcceptBlock    maybeAcceptBlock (+ dbMaybeStoreBlock, index.AddNode)
